@@ -27,7 +27,7 @@ ID = 'C14'
 TITLE = 'OpenMVG export then import preserves images, poses, structure and matches'
 GEN = []
 RULE = ('each case = one generated dataset inside OpenMVG\'s range (kgen base: sensor ids incl. non-camera sensors, timestamp styles, '
-        'orphan poses; then 1..6 uniquely named images over the directory layouts top / onedir / common / mixed / flip (names whose '
+        'orphan poses; then 1..6 uniquely named images over the directory layouts top / onedir / common / mixed / echo (the name of the common directory comes back deeper in the path) / flip (names whose '
         'order changes when "/" becomes "_"), 1..2 used cameras (+ sometimes an unused one) among SIMPLE_PINHOLE / PINHOLE / '
         'SIMPLE_RADIAL / RADIAL / OPENCV / FULL_OPENCV (k3 zero or not; about 15% not representable: fx != fy, k4..k6 != 0), every '
         'image posed with a quaternion among unit / near-180-degree (w down to 1e-16) / scaled 1e-2..1e2 either sign / axis / '
@@ -79,7 +79,7 @@ def unrat(s):
 
 # ------------------------------------------------------------------------------------------------------- generation
 
-DIR_LAYOUTS = ['top', 'onedir', 'common', 'mixed', 'flip']
+DIR_LAYOUTS = ['top', 'onedir', 'common', 'mixed', 'flip', 'echo']
 CAM_CLASSES = ['SIMPLE_PINHOLE', 'PINHOLE', 'SIMPLE_RADIAL', 'RADIAL', 'OPENCV', 'FULL_OPENCV', 'FULL_OPENCV_k3zero',
                'PINHOLE_fxfy', 'OPENCV_fxfy', 'FULL_OPENCV_k4']
 
@@ -162,6 +162,9 @@ def gen_names(rng, n, layout):
             d = None
         elif layout == 'common':
             d = 'cam0/' + rng.choice(['', 'sub.dir/', 'seq a/', 'ünï/x/'])
+        elif layout == 'echo':
+            # the name of the common directory comes back deeper in the path (as a whole component or as the end of one)
+            d = 'cam/' + rng.choice(['left_cam/', 'cam/', 'x/cam/', 'right_cam/sub/', 'cam/cam/'])
         elif layout == 'mixed':
             d = rng.choice(['', 'seq a/', 'cam0/sub.dir/', 'ünï/', 'a/', 'ab/', 'a/b/'])
         else:   # flip: names whose order changes when '/' becomes '_'
@@ -284,6 +287,8 @@ def cases(rng, tier):
     # the two input classes that found defects (flattening under a common directory; an image with 0 or 1 keypoints)
     out.append(gen_case(rng, tier, {'layout': 'onedir', 'flatten': True, 'n': 2}))
     out.append(gen_case(rng, tier, {'layout': 'common', 'flatten': True, 'n': 3}))
+    out.append(gen_case(rng, tier, {'layout': 'echo', 'flatten': True, 'n': 3}))
+    out.append(gen_case(rng, tier, {'layout': 'echo', 'flatten': False, 'n': 3}))
     out.append(gen_case(rng, tier, {'thin': True, 'layout': 'top', 'n': 2}))
     # name pairs whose order changes under flattening (the index columns of their matches must be swapped on import)
     for _ in range(n // 12):
